@@ -1,4 +1,5 @@
 import MemcVerif.Proofs.Frame
+import MemcVerif.Proofs.Link
 /-!
 # C01 — stored data is returned exactly (read-your-writes, key isolation, no loss without eviction)
 
@@ -228,6 +229,151 @@ example : ∀ e ∈ ([(3, .set [2] (Record.new [9] 0 0 0)), (4, .delete [3] 0), 
   simp at he
   rcases he with rfl | rfl | rfl <;> simp [Foreign, Op.key]
 
+/-! ## from the wire to the commands
+
+The theorems above are about store commands. What the driver runs — and what is compared with the
+implementation — is the connection model: bytes → decoder → `handleRequest` → encoded responses. The next
+theorems say that this pipeline is the commands: the request handler is `applyOp ∘ reqOp` followed by
+response construction, and a pipelined byte stream of acceptable frames moves the store by exactly the
+frames' commands, in order, and writes exactly their responses, in order. -/
+
+/-- `BinaryHandler::handle_request` = run the request's command, then build the response from its result -/
+theorem C01_handler_is_command (s : MemStore) (now : Nat) (req : Req) :
+    handleRequest memOps s now req =
+      ((applyOp s now (reqOp req)).1, respond req (applyOp s now (reqOp req)).2) :=
+  handleRequest_eq s now req
+
+/-- a fresh connection fed any concatenation of complete acceptable frames whose requests do not end the
+    connection: the connection is idle again with nothing buffered, the store is the commands' store and
+    the bytes written are the responses in request order — for every number of frames and every frame -/
+theorem C01_wire_to_command (limit now : Nat) (s : MemStore) (frames : List (Bytes × ReqHeader)) (reqs : List Req)
+    (hall : ∀ f ∈ frames, IsFrame f.1 f.2 ∧ frameOK limit f.1 f.2 = true)
+    (hev : frames.map (fun f => frameEv limit f.1 f.2) = reqs.map .frame)
+    (hl : ∀ r ∈ reqs, r.leaves = false) :
+    feed memOps limit now Conn.init s (frames.map (·.1)).flatten =
+      (⟨.idle, [], false⟩, runOps s (reqs.map (fun r => (now, reqOp r))), respondAll now s reqs) := by
+  have hd := drain_frames limit frames [] hall
+  have hnil : drain limit .idle [] = ([], .idle, []) := by rw [drain_eq]; simp [decode1, Codec.decode, HEADER_LEN, afterDecode]
+  simp only [List.append_nil, hnil, hev] at hd
+  simp only [feed, Conn.init, List.nil_append, hd, execEvs_frames now s reqs hl]
+  simp
+
+/-- one arrival of bytes on a connection: the clock reading, the frames it is made of, and the requests
+    those frames stand for -/
+structure Batch where
+  now : Nat
+  frames : List (Bytes × ReqHeader)
+  reqs : List Req
+
+def Batch.bytes (b : Batch) : Bytes := (b.frames.map (·.1)).flatten
+def Batch.ops (b : Batch) : History := b.reqs.map (fun r => (b.now, reqOp r))
+
+def Batch.OK (limit : Nat) (b : Batch) : Prop :=
+  (∀ f ∈ b.frames, IsFrame f.1 f.2 ∧ frameOK limit f.1 f.2 = true) ∧
+  b.frames.map (fun f => frameEv limit f.1 f.2) = b.reqs.map .frame ∧
+  (∀ r ∈ b.reqs, r.leaves = false)
+
+/-- successive arrivals on one connection, each at its own clock reading -/
+def feedBatches (limit : Nat) : Conn → MemStore → List Batch → Conn × MemStore × Bytes
+  | c, s, [] => (c, s, [])
+  | c, s, b :: rest =>
+    let r := feed memOps limit b.now c s b.bytes
+    let r2 := feedBatches limit r.1 r.2.1 rest
+    (r2.1, r2.2.1, r.2.2 ++ r2.2.2)
+
+theorem runOps_append (s : MemStore) (a b : History) : runOps s (a ++ b) = runOps (runOps s a) b := by
+  induction a generalizing s with
+  | nil => rfl
+  | cons e rest ih => obtain ⟨n, op⟩ := e; simp only [List.cons_append, runOps]; exact ih _
+
+/-- a whole connection's life — any number of arrivals at any clock readings, each any number of
+    acceptable frames — moves the store by exactly the commands of the frames, in order -/
+theorem C01_wire_history (limit : Nat) (s : MemStore) (bs : List Batch) (hok : ∀ b ∈ bs, b.OK limit) :
+    (feedBatches limit Conn.init s bs).1 = Conn.init ∧
+    (feedBatches limit Conn.init s bs).2.1 = runOps s (bs.flatMap Batch.ops) := by
+  induction bs generalizing s with
+  | nil => exact ⟨rfl, rfl⟩
+  | cons b rest ih =>
+    obtain ⟨h1, h2, h3⟩ := hok b (List.mem_cons_self ..)
+    have hf := C01_wire_to_command limit b.now s b.frames b.reqs h1 h2 h3
+    simp only [feedBatches, Batch.bytes, hf, List.flatMap_cons, runOps_append]
+    exact ih _ (fun x hx => hok x (List.mem_cons_of_mem _ hx))
+
+/-- **read-your-writes on the wire**: a Set frame for `(k, v, f, ttl)` with CAS 0 arrives at `t0`; then any
+    arrivals whose frames' commands address other keys; then a Get frame for `k` arrives at `t` before the
+    deadline. The bytes written back for the Get are exactly the encoding of a Get response carrying `v`,
+    `f` and the CAS the Set was acknowledged with. -/
+theorem C01_wire_read_your_writes (limit : Nat) (s : MemStore) (t0 t : Nat) (k : Key) (v : Bytes) (f ttl : Nat)
+    (hs hg : ReqHeader) (fset fget : Bytes) (mid : List Batch)
+    (hset : Batch.OK limit ⟨t0, [(fset, hs)], [.set hs f ttl k v]⟩) (hsop : isSetOp hs.opcode = true) (hcas : hs.cas = 0)
+    (hmid : ∀ b ∈ mid, b.OK limit) (hfor : ∀ b ∈ mid, ∀ e ∈ b.ops, Foreign k e.2)
+    (hget : Batch.OK limit ⟨t, [(fget, hg)], [.get hg k]⟩) (hgop : quietGetOp hg.opcode = false)
+    (hlive : ttl = 0 ∨ t < t0 + ttl) :
+    let st := (feedBatches limit Conn.init s (⟨t0, [(fset, hs)], [.set hs f ttl k v]⟩ :: mid)).2.1
+    (feed memOps limit t Conn.init st fget).2.2 =
+      encode (.get { opcode := hg.opcode, opaq := hg.opaq,
+                     bodyLen := v.length + 4 + (if getKeyOp hg.opcode then k else []).length,
+                     keyLen := (if getKeyOp hg.opcode then k else []).length, extrasLen := 4, cas := s.casId }
+                f (if getKeyOp hg.opcode then k else []) v) := by
+  intro st
+  have hall : ∀ b ∈ (⟨t0, [(fset, hs)], [.set hs f ttl k v]⟩ :: mid : List Batch), b.OK limit := by
+    intro b hb
+    rcases List.mem_cons.mp hb with rfl | hb
+    · exact hset
+    · exact hmid b hb
+  have hst : st = runOps (s.set t0 k (Record.new v 0 f ttl)).1 (mid.flatMap Batch.ops) := by
+    simp only [st, (C01_wire_history limit s _ hall).2, List.flatMap_cons, runOps_append]
+    simp [Batch.ops, reqOp, Req.header, hsop, hcas, runOps, applyOp]
+  have hforeign : ∀ e ∈ mid.flatMap Batch.ops, Foreign k e.2 := by
+    intro e he
+    obtain ⟨b, hb, heb⟩ := List.mem_flatMap.mp he
+    exact hfor b hb e heb
+  have hryw := (C01_read_your_writes s t0 k v f ttl _ hforeign t hlive).1
+  rw [← hst] at hryw
+  obtain ⟨h1, h2, h3⟩ := hget
+  have hf := C01_wire_to_command limit t st [(fget, hg)] [.get hg k] h1 h2 h3
+  simp only [List.map_cons, List.map_nil, List.flatten_cons, List.flatten_nil, List.append_nil] at hf
+  rw [hf]
+  simp only [respondAll, reqOp, applyOp, List.append_nil]
+  rcases hgt : st.get t k with ⟨s', res⟩
+  rw [hgt] at hryw
+  simp only at hryw
+  subst hryw
+  simp [respond, Req.header, hgop, storedRecord]
+  rfl
+
+/-- the premises of `C01_wire_to_command` are met by a concrete pipeline: a Set frame followed by a Get frame -/
+def exSet : Bytes := [0x80, 0x01, 0, 1, 8, 0, 0, 0, 0, 0, 0, 10, 0, 0, 0, 7, 0, 0, 0, 0, 0, 0, 0, 0,
+                      0, 0, 0, 5, 0, 0, 0, 0, 97, 120]
+def exGet : Bytes := [0x80, 0x00, 0, 1, 0, 0, 0, 0, 0, 0, 0, 1, 0, 0, 0, 8, 0, 0, 0, 0, 0, 0, 0, 0, 97]
+
+example :
+    let frames := [(exSet, parseHeader exSet), (exGet, parseHeader exGet)]
+    let reqs := [Req.set (parseHeader exSet) 5 0 [97] [120], Req.get (parseHeader exGet) [97]]
+    (∀ f ∈ frames, IsFrame f.1 f.2 ∧ frameOK 1000 f.1 f.2 = true) ∧
+    frames.map (fun f => frameEv 1000 f.1 f.2) = reqs.map .frame ∧ (∀ r ∈ reqs, r.leaves = false) := by
+  refine ⟨?_, by decide, by decide⟩
+  intro f hf
+  simp only [List.mem_cons, List.not_mem_nil, or_false] at hf
+  rcases hf with rfl | rfl
+  · exact ⟨⟨by decide, rfl⟩, by decide⟩
+  · exact ⟨⟨by decide, rfl⟩, by decide⟩
+
+/-- the premises of `C01_wire_read_your_writes` are met by these two frames (Set with CAS 0, loud Get) -/
+example : Batch.OK 1000 ⟨3, [(exSet, parseHeader exSet)], [.set (parseHeader exSet) 5 0 [97] [120]]⟩ ∧
+    isSetOp (parseHeader exSet).opcode = true ∧ (parseHeader exSet).cas = 0 ∧
+    Batch.OK 1000 ⟨9, [(exGet, parseHeader exGet)], [.get (parseHeader exGet) [97]]⟩ ∧
+    quietGetOp (parseHeader exGet).opcode = false := by
+  refine ⟨⟨?_, by decide, by decide⟩, by decide, by decide, ⟨?_, by decide, by decide⟩, by decide⟩
+  · intro f hf
+    simp only [List.mem_cons, List.not_mem_nil, or_false] at hf
+    subst hf
+    exact ⟨⟨by decide, rfl⟩, by decide⟩
+  · intro f hf
+    simp only [List.mem_cons, List.not_mem_nil, or_false] at hf
+    subst hf
+    exact ⟨⟨by decide, rfl⟩, by decide⟩
+
 end Memc
 
 #print axioms Memc.C01_counter_pos_init
@@ -237,3 +383,8 @@ end Memc
 #print axioms Memc.C01_no_loss
 #print axioms Memc.foreign_step
 #print axioms Memc.foreign_history
+#print axioms Memc.C01_handler_is_command
+#print axioms Memc.C01_wire_to_command
+#print axioms Memc.runOps_append
+#print axioms Memc.C01_wire_history
+#print axioms Memc.C01_wire_read_your_writes
